@@ -468,7 +468,7 @@ Proof.
 Qed.
 
 Definition with_matches (E : menv) (f : N -> contact -> bool) : menv :=
-  {| max_field_chars := max_field_chars E; urn_normalize := urn_normalize E; urn_valid := urn_valid E;
+  {| max_field_chars := max_field_chars E; urn_norm1 := urn_norm1 E; urn_valid := urn_valid E;
      urn_identity := urn_identity E; urn_scheme := urn_scheme E; urn_set_channel := urn_set_channel E;
      urn_channel := urn_channel E;
      tel_scheme := tel_scheme E; chan_can_send := chan_can_send E; chan_supports := chan_supports E;
